@@ -594,6 +594,9 @@ class CommentGenerator:
         return template, fctx
 
     def dd_arg(self, address, values):
+        if len(values) < 2:
+            # A lone DD/FD prefix (before an opcode it does not affect)
+            return '', None
         decoder, template, fctx = self.after_DD.get(values[1], (None, '', None))
         if decoder:
             rv = decoder(template, address, values)
